@@ -30,7 +30,7 @@ def run_plan(variant, lines, wd, name, timeout=900):
 
 def c09(res, tier, seed):
     wd = yv.workdir("C09")
-    m = yv.tlc("SigHandler", "MC_SigHandler.cfg", wd, timeout=900)
+    m = yv.tlc("SigHandler", "MC_SigHandler.cfg", wd, timeout=900, tier=tier)
     if not m["violated"]:
         yv.require_tlc_ok(m, "MC_SigHandler.cfg")
     res.add_tlc("sighandler", m)
